@@ -31,7 +31,7 @@ theorem file_defaults :
 stream says about its own buffering (`line_buffering`, `write_through`): a line-buffered stream does
 NOT flush a text without a line end by itself -/
 theorem flushable_iff_callable_flush (hasFlush lineBuffering writeThrough : Bool) :
-    Gen.flushableOf hasFlush lineBuffering writeThrough = hasFlush := by
+    Gen.flushableOf hasFlush hasStaticFlush lineBuffering writeThrough = hasFlush := by
   simp [Gen.flushableOf]
 
 /-- string formats, non-raw call: the sink receives `format-part ++ terminator ++ exception` -/
@@ -114,9 +114,9 @@ theorem restart_preserves_acked (content : Str) (rot comp ret : Bool) :
 /-- `StreamSink.write` on ANY stream with a callable `flush` – block buffered, line buffered,
 write-through, whatever is already pending – and ANY text (with or without a line end): nothing
 stays in user space when the call returns -/
-theorem flushable_stream_flushed_each_message (f : TextFile) (lineBufferingAttr writeThrough : Bool)
+theorem flushable_stream_flushed_each_message (f : TextFile) (staticFlush lineBufferingAttr writeThrough : Bool)
     (hc : f.closed = false) (m : Str) :
-    let s := StreamSink.new f true lineBufferingAttr writeThrough
+    let s := StreamSink.new f true staticFlush lineBufferingAttr writeThrough
     (s.sinkWrite m).file.pending = [] ∧ (s.sinkWrite m).file.os = f.os ++ f.pending ++ m := by
   intro s
   have hf : s.flushable = true := by simp [s, StreamSink.new, flushable_iff_callable_flush]
@@ -125,9 +125,9 @@ theorem flushable_stream_flushed_each_message (f : TextFile) (lineBufferingAttr 
 
 /-- crash after the k-th call on a flushable stream sink of any buffering kind: exactly the first k
 texts are in the OS – for ALL texts (no line-end hypothesis: raw messages, dynamic formats) -/
-theorem stream_crash_preserves_acked (f : TextFile) (lineBufferingAttr writeThrough : Bool)
+theorem stream_crash_preserves_acked (f : TextFile) (staticFlush lineBufferingAttr writeThrough : Bool)
     (hc : f.closed = false) (hp : f.pending = []) (ms : List Str) (k : Nat) :
-    let s := StreamSink.new f true lineBufferingAttr writeThrough
+    let s := StreamSink.new f true staticFlush lineBufferingAttr writeThrough
     (runStream s (ms.take k)).file.crash = f.os ++ (ms.take k).flatten ∧
     (runStream s (ms.take k)).file.pending = [] := by
   intro s
@@ -174,6 +174,19 @@ a message whose text is empty ends the worker thread, and everything queued afte
 theorem falsy_sentinel_test_loses_messages (k : Sink) (c : Call) (rest : List Call) (he : c.2 = []) :
     workerRun [.get, .confirmIfTrue, .breakIfFalsy, .write] k (c :: rest) = (k, rest) := by
   simp [workerRun, workerIter, he]
+
+/-- REFUTING WITNESS for the broken shape "`stop()` waits for the worker only for a bounded time"
+(`self._thread.join(timeout)`): when the backlog outlasts the bound, `stop()` returns, the sink is
+stopped, and the queued messages – whose logging calls had returned – are in no sink -/
+theorem bounded_join_loses_the_backlog (h : Handler) (he : h.enqueue = true) (ho : h.owner = true) :
+    let bounded : List (Bool × StopOp) :=
+      [(false, .setStopped), (true, .returnIfNotOwner), (true, .putSentinel), (true, .joinWorkerTimeout),
+       (true, .closeQueue), (false, .sinkStop)]
+    let h' := (bounded.foldl runStopOp (h, false)).1
+    h'.sink = h.sink.stop ∧ h'.queue = h.queue ∧ h'.joined = h.joined := by
+  obtain ⟨enq, own, q, sk, st, se, jo, hu⟩ := h
+  simp only at he ho; subst he ho
+  simp [runStopOp]
 
 /-- the exit clause in a process FORKED after `add()` (daemonisation: the launcher leaves with
 `os._exit`, the forked process later exits normally): a handler without `enqueue` that this process
